@@ -48,13 +48,18 @@ def match_records(matches):
     return [(tuple(m.parts), m.obj, m.path) for m in matches]
 
 
+def _pk(p):
+    """Kind of a location part: a member name (str or a subclass: the document's own key object) or an index."""
+    return "name" if isinstance(p, str) else ("index" if isinstance(p, int) and not isinstance(p, bool) else type(p).__name__)
+
+
 def nodes_equal(impl, model):
     """impl: [(parts, obj, path)], model: [(loc, value)].  Same length, order,
     locations (type-sensitive) and values (strict)."""
     if len(impl) != len(model):
         return "length %d != %d" % (len(impl), len(model))
     for i, ((parts, obj, _path), (loc, val)) in enumerate(zip(impl, model)):
-        if len(parts) != len(loc) or any(type(a) is not type(b) or a != b for a, b in zip(parts, loc)):
+        if len(parts) != len(loc) or any(_pk(a) != _pk(b) or a != b for a, b in zip(parts, loc)):
             return "node %d location %r != %r" % (i, parts, loc)
         if type(val).__name__ == "_Val":
             if not strict_eq(obj, val.v):
